@@ -75,6 +75,8 @@ func (f c14fault) apply(env *Env) {
 		env.Reader.FailAt, env.Reader.WithData = f.k, true
 	case "reader-once":
 		env.Reader.FailAt, env.Reader.Once = f.k, true
+	case "reader+data-once":
+		env.Reader.FailAt, env.Reader.WithData, env.Reader.Once = f.k, true, true
 	case "writer":
 		env.Writer.FailAt = f.k
 	case "writer-torn":
@@ -94,7 +96,7 @@ func (f c14fault) apply(env *Env) {
 	env.Writer.ErrVariant = f.k / 2
 }
 
-var c14kinds = []string{"reader", "reader+data", "reader-once", "writer", "writer-torn", "writer-short", "writer-once", "writer-full", "writer+reader-silent"}
+var c14kinds = []string{"reader", "reader+data", "reader-once", "writer", "writer-torn", "writer-short", "writer-once", "writer-full", "writer+reader-silent", "reader+data-once"}
 
 func caseC14(c *Ctx) {
 	massive := pickArm(c, []string{"simple", "massive"}, 5, 5) == "massive"
@@ -246,7 +248,7 @@ func caseC14(c *Ctx) {
 		} else {
 			if !op.FromRoot {
 				for k := 0; k <= L; k++ {
-					faults = append(faults, c14fault{"reader", k}, c14fault{"reader+data", k}, c14fault{"reader-once", k})
+					faults = append(faults, c14fault{"reader", k}, c14fault{"reader+data", k}, c14fault{"reader-once", k}, c14fault{"reader+data-once", k})
 				}
 			}
 			for j := 0; j < W; j++ {
